@@ -156,7 +156,7 @@ FairSpec == Spec /\ WF_vars(Internal) /\ WF_vars(ConsumerDone) /\ WF_vars(Advanc
 ----------------------------------------------------------------------------
 Range(s) == {s[i] : i \in 1 .. Len(s)}
 Stored == Range(q) \cup Range(putters) \cup (IF hand # 0 THEN {hand} ELSE {})
-Quiescent == cbpc \in {"waiting"} /\ q = <<>> /\ putters = <<>> /\ ~consBusy
+Quiescent == cbpc \in {"waiting", "sleeping"} /\ q = <<>> /\ putters = <<>> /\ ~consBusy
 
 TypeOK == /\ arrived \in 0 .. NE /\ cbpc \in {"start", "waiting", "has", "awaiting", "sleeping", "dead"}
           /\ hand \in 0 .. NE /\ consBusy \in BOOLEAN
